@@ -560,6 +560,10 @@ func runConfig(cfg *runCfg) error {
 	for _, c := range d.tlsFlagCases() {
 		add(c)
 	}
+	pcases, pstats := d.portSweep(g)
+	for _, c := range pcases {
+		add(c)
+	}
 	for _, c := range d.concurrentLoads(g) {
 		add(c)
 	}
@@ -584,6 +588,8 @@ func runConfig(cfg *runCfg) error {
 			"Definition NENVOK := Eval vm_compute in (count_if is_env_case cases : Z).\nPrint NENVOK.\n" +
 			"Definition NENVEQ := Eval vm_compute in (count_if is_env_eq_case cases : Z).\nPrint NENVEQ.\n" +
 			"Definition NSTRICTREJ := Eval vm_compute in (sum_Z load_trace_strict_rejections cases : Z).\nPrint NSTRICTREJ.\n" +
+			"Definition NSECTIONREJ := Eval vm_compute in (count_if is_section_rejected cases : Z).\nPrint NSECTIONREJ.\n" +
+			"Definition NSECTIONACC := Eval vm_compute in (count_if is_section_accepted cases : Z).\nPrint NSECTIONACC.\n" +
 			"Definition NTLSFLAGON := Eval vm_compute in (count_if is_tls_flag_on cases : Z).\nPrint NTLSFLAGON.\n",
 	}
 	if err := cf.Write(cfg.Out); err != nil {
@@ -601,6 +607,7 @@ func runConfig(cfg *runCfg) error {
 	cfg.St["samples"] = samples
 	cfg.St["distribution"] = dist
 	cfg.St["formats"] = fstats
+	cfg.St["ports"] = pstats
 	if d.failures == nil {
 		d.failures = []map[string]string{}
 	}
